@@ -74,6 +74,7 @@ pub fn xml_tokens() -> Vec<Vec<u8>> {
         b"<!DOCTYPE a>", b"<!DOCTYPE a [<!ENTITY e \"v\">]>", b"\xFF", b"\xC3", b":",
         b"<_", b"</_>", b"<-.", b"<1a", b" _=\"\"",
         b"\xA9", b"<?xml version=\"1.0\" encoding=\"ISO-8859-1\"?>",
+        b"</a >", b"<!DOCTYPE>", b"<!doctype  >",
     ];
     t.into_iter().map(|x| x.to_vec()).collect()
 }
